@@ -281,6 +281,24 @@ class GhostMap:
             self.on_get(E, path, t, v)
         return E.from_pv(v, path)
 
+    def sym_getattr(self, E, path, name):
+        if name == "get":
+            gm = self
+
+            class _Get:
+                def sym_call(self_, E_, path_, args, kwargs):
+                    if kwargs or len(args) not in (1, 2):
+                        raise Unsupported("dict.get signature")
+                    t = gm._key(E_, path_, args[0])
+                    if E_.branch(path_, gm.has_fn(t)):
+                        v = gm.get_fn(t)
+                        if gm.on_get is not None:
+                            gm.on_get(E_, path_, t, v)
+                        return E_.from_pv(v, path_)
+                    return args[1] if len(args) == 2 else None
+            return _Get()
+        raise Unsupported(f"getattr {name} on GhostMap")
+
 
 class Module:
     def __init__(self, name):
@@ -876,6 +894,20 @@ class Engine:
                 r = c(self, path, fref, args, kwargs)
                 if r is not NotImplemented:
                     return r
+        # an uncontracted function is inlined; inlining it into itself without bound is not a proof technique
+        depth = getattr(self, "_inline_depth", None)
+        if depth is None:
+            depth = self._inline_depth = {}
+        qn = fref.qualname
+        if depth.get(qn, 0) >= 6:
+            raise Unsupported(f"unbounded recursion through {qn}: the function needs a contract or a derived summary")
+        depth[qn] = depth.get(qn, 0) + 1
+        try:
+            return self._call_function_body(path, fref, args, kwargs)
+        finally:
+            depth[qn] -= 1
+
+    def _call_function_body(self, path, fref, args, kwargs):
         fdef = fref.fdef or self.facts.fdef(fref.fact)
         w = fref.fact.get("wrapper") if fref.fact else None
         if w and not getattr(fref, "_unwrapped", False):
